@@ -603,3 +603,28 @@ func H12Density() {
 	vndAssert(math.Abs(sd.CDF(a)+sd.CDF(-a)-1) <= 1e-12 && sd.CDF(a) >= 0.5 && sd.CDF(a) <= 1, "normal-distribution-function-reflects")
 	vndAssert(math.Abs(sd.CDF(sd.InvCDF(0.025+a/8))-(0.025+a/8)) <= 1e-9, "normal-inverse-inverts")
 }
+
+// H12NormalInverse: the normal distribution's own inverse (a rational approximation in three
+// regions) inverts its distribution function for shifted and scaled distributions too, in
+// the lower, central and upper region; monotone; symmetric about the mean.
+func H12NormalInverse() {
+	d := []NormalDist{{0, 1}, {2, 5}, {-3, 0.5}, {1e6, 1}}[vndChoice("dist", 4)]
+	probs := []float64{1e-12, 1e-5, 0.001, 0.02, 0.02425, 0.03, 0.25, 0.5, 0.75, 0.97, 0.97575, 0.98, 0.999, 1 - 1e-5, 1 - 1e-12}
+	k := vndChoice("p", len(probs))
+	p := probs[k]
+	x := d.InvCDF(p)
+	vndReach("h12:normal-inverse")
+	vndAssert(x == x && !math.IsInf(x, 0), "inverse-is-finite-inside-the-unit-interval")
+	// Acklam's approximation has a relative error of 1.15e-9 in x
+	vndAssert(math.Abs(d.CDF(x)-p) <= 1e-8*math.Max(p, 1e-3) || math.Abs(d.CDF(x)-p) <= 2e-9, "inverse-inverts-the-distribution-function")
+	if k+1 < len(probs) {
+		vndAssert(x <= d.InvCDF(probs[k+1]), "inverse-is-monotone")
+	}
+	// symmetry about the mean: the quantiles of p and 1-p are mirror images (p and 1-p both exact here only for some p)
+	if p == 0.25 || p == 0.5 || p == 0.75 {
+		vndAssert(math.Abs((x-d.Mu)+(d.InvCDF(1-p)-d.Mu)) <= 1e-8*d.Sigma, "inverse-is-symmetric-about-the-mean")
+	}
+	vndAssert(math.IsInf(d.InvCDF(0), -1) && math.IsInf(d.InvCDF(1), 1), "inverse-at-0-and-1-is-infinite-for-unbounded-support")
+	nanv := d.InvCDF(-0.5)
+	vndAssert(nanv != nanv, "inverse-outside-the-unit-interval-is-nan")
+}
